@@ -39,6 +39,23 @@ pub trait Stream: Sync {
     fn answer(&self, req: &Sexp) -> Sexp;
 }
 
+static PHASES: Mutex<Vec<(std::thread::ThreadId, &'static str)>> = Mutex::new(Vec::new());
+
+/// Streams that run third-party code in-process name the phase they are in, so that the watchdog can say where a
+/// case that ran out of time was stuck.
+pub fn set_phase(phase: &'static str) {
+    let id = std::thread::current().id();
+    let mut p = PHASES.lock().unwrap();
+    match p.iter_mut().find(|(t, _)| *t == id) {
+        Some(e) => e.1 = phase,
+        None => p.push((id, phase)),
+    }
+}
+
+fn phase_of(id: std::thread::ThreadId) -> &'static str {
+    PHASES.lock().unwrap().iter().find(|(t, _)| *t == id).map(|e| e.1).unwrap_or("unknown")
+}
+
 pub fn panic_message(e: Box<dyn std::any::Any + Send>) -> String {
     if let Some(s) = e.downcast_ref::<&str>() {
         (*s).to_owned()
@@ -103,45 +120,139 @@ fn main() {
         "gen" => {
             let cases = stream.generate(seed, thorough);
             let n = cases.len();
+            if let Some(k) = std::env::var("QV_DUMP_CASE").ok().and_then(|v| v.parse::<usize>().ok()) {
+                println!("{}", cases[k].request.render());
+                return;
+            }
             let answers: Vec<Mutex<Option<Sexp>>> = (0..n).map(|_| Mutex::new(None)).collect();
             let next = AtomicUsize::new(0);
             let workers = std::thread::available_parallelism().map(|x| x.get()).unwrap_or(4).min(16);
+            // what each worker is doing: (case index, since when); the watchdog answers for a case that runs longer
+            // than the limit (the code under test is run in-process and cannot be interrupted: the thread is abandoned
+            // and the process exits once every other case is answered)
+            let limit = std::time::Duration::from_secs(
+                std::env::var("QV_CASE_TIMEOUT").ok().and_then(|v| v.parse().ok()).unwrap_or(if thorough { 300 } else { 45 }),
+            );
+            let busy: Vec<Mutex<Option<(usize, std::time::Instant, std::thread::ThreadId)>>> = (0..workers).map(|_| Mutex::new(None)).collect();
+            let path = out.expect("--out required");
+            let trace = std::env::var_os("QV_TRACE").is_some();
+            let finish = || {
+                let mut f = std::io::BufWriter::new(std::fs::File::create(&path).unwrap());
+                for (c, a) in cases.iter().zip(&answers) {
+                    let a = a.lock().unwrap().clone().unwrap();
+                    writeln!(f, "{}\t{}\t{}\t{}", c.kind, c.labels.join(","), c.request.render(), a.render()).unwrap();
+                }
+                f.flush().unwrap();
+                eprintln!("qv-harness: {stream_name}: {n} cases written to {path}");
+            };
             std::thread::scope(|s| {
-                for _ in 0..workers {
-                    s.spawn(|| loop {
+                for w in 0..workers {
+                    let (next, answers, busy, cases) = (&next, &answers, &busy, &cases);
+                    s.spawn(move || loop {
                         let k = next.fetch_add(1, Ordering::Relaxed);
                         if k >= n {
+                            *busy[w].lock().unwrap() = None;
                             break;
                         }
+                        set_phase("start");
+                        *busy[w].lock().unwrap() = Some((k, std::time::Instant::now(), std::thread::current().id()));
+                        if trace {
+                            eprintln!("start {k} {}", cases[k].labels.join(","));
+                        }
                         let a = safe_answer(stream, &cases[k].request);
-                        *answers[k].lock().unwrap() = Some(a);
+                        if trace {
+                            eprintln!("done {k}");
+                        }
+                        let mut slot = answers[k].lock().unwrap();
+                        if slot.is_none() {
+                            *slot = Some(a);
+                        }
                     });
                 }
+                // watchdog
+                let (answers, busy, finish) = (&answers, &busy, &finish);
+                s.spawn(move || loop {
+                    std::thread::sleep(std::time::Duration::from_millis(200));
+                    let mut hung = 0;
+                    let mut running = 0;
+                    for b in busy.iter() {
+                        if let Some((k, since, tid)) = *b.lock().unwrap() {
+                            running += 1;
+                            if since.elapsed() > limit {
+                                hung += 1;
+                                let mut slot = answers[k].lock().unwrap();
+                                if slot.is_none() {
+                                    *slot = Some(sexp::node(
+                                        "fail",
+                                        vec![
+                                            sexp::st("in-process-timeout"),
+                                            sexp::node("seconds", vec![sexp::num(limit.as_secs())]),
+                                            sexp::node("phase", vec![sexp::st(phase_of(tid))]),
+                                        ],
+                                    ));
+                                }
+                            }
+                        }
+                    }
+                    if running == 0 {
+                        return; // every worker left its loop: the scope ends normally
+                    }
+                    if hung > 0 && hung == running && answers.iter().all(|a| a.lock().unwrap().is_some()) {
+                        // only abandoned threads are left
+                        finish();
+                        std::process::exit(0);
+                    }
+                });
             });
-            let path = out.expect("--out required");
-            let mut f = std::io::BufWriter::new(std::fs::File::create(&path).unwrap());
-            for (c, a) in cases.iter().zip(&answers) {
-                let a = a.lock().unwrap().take().unwrap();
-                writeln!(f, "{}\t{}\t{}\t{}", c.kind, c.labels.join(","), c.request.render(), a.render()).unwrap();
-            }
-            f.flush().unwrap();
-            eprintln!("qv-harness: {stream_name}: {n} cases written to {path}");
+            finish();
         }
         "answer" => {
+            // one request per line; each is answered on a helper thread so that a case the code under test does not
+            // finish within the limit gets a time-out answer (the thread is abandoned, see "gen")
+            let limit = std::time::Duration::from_secs(
+                std::env::var("QV_CASE_TIMEOUT").ok().and_then(|v| v.parse().ok()).unwrap_or(if thorough { 300 } else { 45 }),
+            );
             let stdin = std::io::stdin();
             let stdout = std::io::stdout();
-            let mut o = stdout.lock();
-            for line in stdin.lock().lines() {
-                let line = line.unwrap();
-                if line.trim().is_empty() {
-                    continue;
+            let mut abandoned = false;
+            std::thread::scope(|s| {
+                let mut o = stdout.lock();
+                for line in stdin.lock().lines() {
+                    let line = line.unwrap();
+                    if line.trim().is_empty() {
+                        continue;
+                    }
+                    let a = match Sexp::parse(&line) {
+                        Some(req) => {
+                            let (tx, rx) = std::sync::mpsc::channel();
+                            let h = s.spawn(move || {
+                                set_phase("start");
+                                let _ = tx.send(safe_answer(stream, &req));
+                            });
+                            match rx.recv_timeout(limit) {
+                                Ok(a) => a,
+                                Err(_) => {
+                                    abandoned = true;
+                                    sexp::node(
+                                        "fail",
+                                        vec![
+                                            sexp::st("in-process-timeout"),
+                                            sexp::node("seconds", vec![sexp::num(limit.as_secs())]),
+                                            sexp::node("phase", vec![sexp::st(phase_of(h.thread().id()))]),
+                                        ],
+                                    )
+                                }
+                            }
+                        }
+                        None => sexp::node("bad-sexp", vec![]),
+                    };
+                    writeln!(o, "{}", a.render()).unwrap();
                 }
-                let a = match Sexp::parse(&line) {
-                    Some(req) => safe_answer(stream, &req),
-                    None => sexp::node("bad-sexp", vec![]),
-                };
-                writeln!(o, "{}", a.render()).unwrap();
-            }
+                o.flush().unwrap();
+                if abandoned {
+                    std::process::exit(0);
+                }
+            });
         }
         _ => {
             eprintln!("unknown command {cmd}");
